@@ -51,6 +51,7 @@ extern sim_hooks_t sim_hooks;
 extern uint64_t sim_now;            /* virtual ms */
 extern FILE *sim_trace;             /* ndjson */
 extern int sim_trace_io;            /* log Io events */
+extern int sim_nested_wait;         /* opt-in: waits that libcoap or the application start themselves block in virtual time */
 extern int sim_trace_dg;            /* log the simulator's own Tx / Rx / Lost / Tick events (default on) */
 
 void sim_reset(uint64_t start);     /* forget datagrams, sockets stay registered through epoll_ctl */
